@@ -17,6 +17,7 @@
 //!   FOLD <lo> <hi>                  scalar values whose lower-casing is an ASCII letter (model of
 //!                                   char::to_lowercase as used by nom's tag_no_case)
 //!
+//! With `--panic-only` (the C14 stage) the oracle is "never PANIC" alone.
 //! Oracle (independent of the model): never PANIC; `=`: dump equality (a tree holding a value with
 //! `]`, four consecutive spaces or CR is the recorded class ndl-value-rewrite); `!`: must be ERR.
 use elvis::ndl::core_parser;
@@ -147,6 +148,12 @@ fn classify(msg: &str) -> String {
         from = st;
     }
     format!("ERR {} {}", cls, line.unwrap_or_else(|| "-".into()))
+}
+
+/// `--panic-only` (C14 stage): the oracle is "no panic" alone; round-trip / reject expectations are C19's
+fn panic_only() -> bool {
+    static F: OnceLock<bool> = OnceLock::new();
+    *F.get_or_init(|| std::env::args().any(|a| a == "--panic-only"))
 }
 
 fn scratch_path() -> String {
@@ -1106,7 +1113,7 @@ impl Family for Ndl {
                             flags.push(if same { '1' } else { '0' });
                         }
                         stat("ren_ok");
-                        let oracle = if flags == "1111" {
+                        let oracle = if flags == "1111" || panic_only() {
                             Oracle::Ok
                         } else {
                             Oracle::Fail(format!("an accepted description does not survive rendering + parsing: same={}", flags))
@@ -1138,6 +1145,8 @@ impl Family for Ndl {
                 let oracle = if res == "PANIC" {
                     stat("expect_any");
                     Oracle::Fail("the parser panicked on this text".to_string())
+                } else if panic_only() {
+                    Oracle::Ok
                 } else if t.len() >= 3 && t[2].starts_with('=') {
                     stat("expect_roundtrip");
                     let want = &case[case.find(" =").unwrap() + 2..];
